@@ -43,21 +43,28 @@ def main(argv) -> int:
             ap = subprocess.run(["git", "-C", scratch, "apply", os.path.join(root, mid, "patch.diff")],
                                 capture_output=True, text=True)
             if ap.returncode != 0:
-                rows.append((mid, prop, "patch does not apply to the current tree", None))
+                rows.append((mid, prop, "patch does not apply to the current tree", None, False))
                 continue
             t0 = time.time()
             env = dict(os.environ, XEOFS_VERIF_REPO=scratch, VERIF_SEED=seed)
             p = subprocess.run([os.path.join(VERIF, "check"), prop, tier], capture_output=True, text=True, env=env, cwd=VERIF)
             sigs = sorted({l.split("signature:", 1)[1].strip() for l in p.stdout.splitlines() if "signature:" in l})
-            rows.append((mid, prop, f"exit {p.returncode} in {time.time() - t0:.0f}s", sigs[:3]))
+            outside = bool(meta.get("outside_property_as_read"))
+            rows.append((mid, prop, f"exit {p.returncode} in {time.time() - t0:.0f}s", sigs[:3], outside))
             print(f"{mid:10s} {prop} exit={p.returncode} {sigs[:2]}", flush=True)
     finally:
         subprocess.run(["git", "-C", REPO, "worktree", "remove", "--force", scratch], capture_output=True)
         shutil.rmtree(scratch, ignore_errors=True)
         # the evidence files and replay directory now describe mutated trees: they must be rewritten by a
         # run of the checks against /repo itself before anything is committed
+    # (a change recorded as outside the property as read - meta.json "outside_property_as_read" - is expected
+    #  to leave the check silent; it is listed, not counted)
+    outside = [r for r in rows if r[4]]
+    rows = [r for r in rows if not r[4]]
     missed = [r for r in rows if not r[2].startswith("exit 1")]
     print(f"sensitivity: {len(rows) - len(missed)} of {len(rows)} seeded changes caught")
+    for r in outside:
+        print("  outside the property as read (not claimed):", r[:3])
     for r in missed:
         print("  NOT CAUGHT:", r)
     return 0 if not missed else 1
